@@ -332,8 +332,105 @@ def run_persist(res):
                              'rewrite'}
 
 
+# ------------------------------------------------- feature histories
+
+FEAT_OPS = ['R0', 'R1', 'R2', 'P', 'D']
+
+
+def feat_fresh(f):
+    from DocumentTemplate import HTML
+    from ..features import FEATURES
+    return HTML(FEATURES[f][1])
+
+
+def feat_alone(f, i):
+    """called in a pristine process: the very first compile and render"""
+    from ..features import FEATURES
+    from ..features import observe
+    return observe(feat_fresh(f), FEATURES[f][2][i]())
+
+
+def feat_render(res, t, f, i, tag, ctx):
+    from .. import pristine
+    from ..features import FEATURES
+    from ..features import observe
+    from ..features import snapshot
+    ns = FEATURES[f][2][i]()
+    snap = snapshot(ns)
+    keys = set(ns)
+    got = observe(t, ns)
+    want = pristine.alone('c17', 'feat_alone', [f, i])
+    name = FEATURES[f][0]
+    if got != want:
+        res.violate('same-as-pristine', 'feat-differs:%s:%s' % (name, tag),
+                    dict(ctx, source=FEATURES[f][1], got=got, alone=want),
+                    dict(ctx))
+    if set(ns) != keys or snapshot(ns) != snap:
+        res.violate('no-side-effect', 'feat-mutated:%s' % name,
+                    dict(ctx, source=FEATURES[f][1]), dict(ctx))
+
+
+def run_feat(res, case):
+    """all histories over FEAT_OPS up to the depth (or one given history)"""
+    import itertools
+    f = case['f']
+    hists = [case['history']] if 'history' in case else (
+        h for d in range(1, case['depth'] + 1)
+        for h in itertools.product(FEAT_OPS, repeat=d) if h[-1][0] == 'R')
+    n = 0
+    for h in hists:
+        t = feat_fresh(f)
+        ctx = {'fam': 'feat', 'f': f, 'history': list(h)}
+        prev = 'nothing'
+        for k, op in enumerate(h):
+            if op == 'P':
+                t = pickle.loads(pickle.dumps(t))
+            elif op == 'D':
+                t = copy.deepcopy(t)
+            elif k == len(h) - 1 or 'history' in case:
+                # earlier renders of this history are the last operation of
+                # a shorter history that is enumerated as well
+                feat_render(res, t, f, int(op[1]), 'R-after-' + prev[0], ctx)
+            else:
+                from ..features import FEATURES
+                from ..features import observe
+                observe(t, FEATURES[f][2][int(op[1])]())
+            prev = op
+        n += 1
+    res.evals = res.transitions = res.traces = n
+    res.nt_count = n
+    res.states = n
+    res.outcome = 'feat'
+
+
+def run_cross(res, case):
+    """template F rendered with namespace i, then every other template G
+    with every namespace j in the same process: G's result must equal G's
+    result alone (state shared between templates: class or module level)"""
+    from ..features import FEATURES
+    from ..features import observe
+    f, i = case['f'], case['i']
+    pairs = [(case['g'], case['j'])] if 'g' in case else [
+        (g, j) for g in range(len(FEATURES)) if g != f for j in range(3)]
+    for g, j in pairs:
+        observe(feat_fresh(f), FEATURES[f][2][i]())
+        ctx = {'fam': 'cross', 'f': f, 'i': i, 'g': g, 'j': j}
+        feat_render(res, feat_fresh(g), g, j,
+                    'after-template-' + FEATURES[f][0], ctx)
+    res.evals = res.transitions = res.traces = len(pairs)
+    res.nt_count = len(pairs)
+    res.states = len(pairs)
+    res.outcome = 'cross'
+
+
 def cases(tier):
+    from ..features import FEATURES
     yield {'fam': 'persist'}
+    for f in range(len(FEATURES)):
+        yield {'fam': 'feat', 'f': f, 'depth': 3 if tier == 'quick' else 4}
+    for f in range(len(FEATURES)):
+        for i in range(3):
+            yield {'fam': 'cross', 'f': f, 'i': i}
     lit, maxd = (3, 8) if tier == 'quick' else (4, 12)
     for s in range(len(SOURCES)):
         for d in range(len(DEFAULTS)):
@@ -346,6 +443,12 @@ def run(case):
     if case['fam'] == 'persist':
         run_persist(res)
         res.outcome = 'persist'
+        return res
+    if case['fam'] == 'feat':
+        run_feat(res, case)
+        return res
+    if case['fam'] == 'cross':
+        run_cross(res, case)
         return res
     if 'history' in case:
         prewarm()
